@@ -6,6 +6,7 @@
 #[path = "/repo/blots-wasm/src/lib.rs"]
 mod wasm_driver;
 
+mod c11;
 mod c12;
 mod ev;
 mod vgen;
@@ -65,6 +66,7 @@ fn main() {
                 .iter()
                 .map(|c| match prop {
                     "c12" => c12::replay(c, &ls),
+                    "c11" => c11::replay(c),
                     _ => {
                         eprintln!("unknown property {prop}");
                         std::process::exit(2)
@@ -76,6 +78,7 @@ fn main() {
         ("record", prop) => {
             let out = match prop {
                 "c12" => c12::record(seed, n),
+                "c11" => c11::record(seed, n),
                 _ => {
                     eprintln!("unknown property {prop}");
                     std::process::exit(2)
